@@ -11,21 +11,23 @@ Import ListNotations.
 Module M5 := Verif.C05.Model.
 Module M6 := Verif.C06.Model.
 
-(* [VSym id] / [VObj id host]: id stands for the Go pointer of the Symbol or the Object.
+(* [VSym id]: id stands for the Go pointer of the Symbol.  [VObj id host]: the PAIR (id, host) stands for the Go
+   pointer of the Object (one object wraps one thing: two values with equal id and different host are different
+   pointers).
    host = Some g: the object is a wrapper whose objectImpl.equal compares the wrapped Go value g
    (objectGoReflect, objectGoSlice, dynamicObject, taggedTemplateArray; the kind is folded into g);
-   host = None: every other object (baseObject.equal returns false). *)
+   host = None: every other object (baseObject.equal returns false; also a wrapper of a value of an uncomparable
+   Go type: since dd55fb8 its equal is false and hashIdentity declines, so it behaves as an ordinary object). *)
 Inductive jsval :=
 | VUndef | VNull | VBool (b : bool) | VNum (n : M5.jsnum) | VStr (s : M6.jsstr)
 | VSym (id : N) | VObj (id : N) (host : option N) | VBig (z : Z).
 
 (* goja's representation invariants: numbers canonical (C05) with a valid binary64 payload, strings in
-   normal form (C06), objects ordinary (no Go-value wrapper) *)
+   normal form (C06) *)
 Definition key_wf (v : jsval) : bool :=
   match v with
   | VNum n => M5.canon n && M5.wf n
   | VStr s => M6.nf s
-  | VObj _ h => match h with None => true | Some _ => false end
   | _ => true
   end.
 
@@ -36,6 +38,11 @@ Definition goja_norm (v : jsval) : jsval :=
 
 Definition host_eq (h g : option N) : bool :=
   match h, g with Some x, Some y => N.eqb x y | _, _ => false end.
+Definition opt_eqb (h g : option N) : bool :=
+  match h, g with Some x, Some y => N.eqb x y | None, None => true | _, _ => false end.
+(* "o == other || o.self.equal(other.self)" *)
+Definition obj_same (i : N) (h : option N) (j : N) (g : option N) : bool :=
+  (N.eqb i j && opt_eqb h g) || host_eq h g.
 
 (* Value.SameAs, receiver first.
    valueUndefined/valueNull: type assertion on the other side (value.go:403, 439);
@@ -54,7 +61,7 @@ Definition goja_same (a b : jsval) : bool :=
   | VNum x, VNum y => M5.sameAs x y
   | VStr x, VStr y => M6.same_as x y
   | VSym i, VSym j => N.eqb i j
-  | VObj i h, VObj j g => N.eqb i j || host_eq h g
+  | VObj i h, VObj j g => obj_same i h j g
   | VBig x, VBig y => Z.eqb x y
   | _, _ => false
   end.
@@ -74,13 +81,17 @@ Variables hashTrue hashFalse hashNull hashUndef : N.
 Variable mh : list N -> N.
 (* uint64(uintptr(unsafe.Pointer(p))) of a *Symbol / an *Object *)
 Variables ptr_sym ptr_obj : N -> N.
+(* what hashIdentity returns for the thing a wrapper wraps (813b109): the address of the struct / array / slice /
+   template site, or maphash.Comparable of the value; fixed at first use *)
+Variable host_hash : N -> N.
 
 (* key.hash(m.hash):
    valueInt -> uint64(i); valueFloat -> 0 if it is a zero, else Float64bits (C05 [hash_words], value.go:261, 691);
    valueBool/Null/Undefined -> the package-level words (value.go:355, 417, 469);
    strings -> maphash of the bytes C06 calls [hash_bytes] (string_ascii.go:349, string_unicode.go:776,
               string_imported.go:171);
-   *Symbol, *Object -> the pointer (value.go:1128, 800); the hasher is not used, it may be nil;
+   *Symbol -> the pointer (value.go:1128); the hasher is not used, it may be nil;
+   *Object -> hashIdentity of what it wraps if its objectImpl has one, else the pointer (value.go:800);
    *valueBigInt -> maphash of a sign byte followed by Bytes() (builtin_bigint.go:111). *)
 Definition goja_hash (v : jsval) : N :=
   match v with
@@ -90,7 +101,7 @@ Definition goja_hash (v : jsval) : N :=
   | VNum n => Z.to_N (M5.hash_words n)
   | VStr s => mh (M6.hash_bytes s)
   | VSym i => ptr_sym i
-  | VObj i _ => ptr_obj i
+  | VObj i h => match h with Some g => host_hash g | None => ptr_obj i end
   | VBig z => mh ((if Z.ltb z 0 then 1%N else 0%N) :: be_bytes (Z.abs_N z))
   end.
 End Hash.
@@ -107,7 +118,7 @@ Definition svz_spec (a b : jsval) : bool :=
   | VNum x, VNum y => M5.same_value_zero_spec (M5.num_sem x) (M5.num_sem y)
   | VStr x, VStr y => M6.list_eqb (M6.units x) (M6.units y)
   | VSym i, VSym j => N.eqb i j
-  | VObj i h, VObj j g => N.eqb i j || host_eq h g
+  | VObj i h, VObj j g => obj_same i h j g
   | VBig x, VBig y => Z.eqb x y
   | _, _ => false
   end.
